@@ -160,7 +160,17 @@ fn dce_block_with_live(
                 out.push(ast::Stmt::Return { expr });
             }
             ast::Stmt::Loop { body } => {
-                let (body_block, body_live_in) = dce_block_with_live(body, &live);
+                // A value assigned in one iteration may be read in the next one: what is live
+                // at the head of the body is live at its end as well (iterated to the fixed
+                // point; live sets only grow).
+                let mut loop_live = live.clone();
+                let (body_block, body_live_in) = loop {
+                    let (block, live_in) = dce_block_with_live(body.clone(), &loop_live);
+                    if live_in.is_subset(&loop_live) {
+                        break (block, live_in);
+                    }
+                    loop_live.extend(live_in);
+                };
                 live.extend(body_live_in);
                 needs_decl.extend(assigned_vars_in_block(&body_block));
                 out.push(ast::Stmt::Loop { body: body_block });
